@@ -18,7 +18,8 @@ import (
 	"golang.org/x/tools/go/ssa/ssautil"
 )
 
-const modPath = "github.com/cbeuw/Cloak"
+// modPath is the module under analysis (the self-test points it at the positive-control module).
+var modPath = "github.com/cbeuw/Cloak"
 
 const goToolchain = "/root/go/pkg/mod/golang.org/toolchain@v0.0.1-go1.24.2.linux-amd64"
 
@@ -26,6 +27,7 @@ const goToolchain = "/root/go/pkg/mod/golang.org/toolchain@v0.0.1-go1.24.2.linux
 type Config struct {
 	GOOS, GOARCH string
 	Tags         string
+	Ctl          bool // positive-control module (self-test): no Cloak anchor packages expected
 }
 
 func (c Config) String() string {
@@ -133,6 +135,9 @@ func Load(repo string, cfg Config) (*Prog, error) {
 		}
 	}
 	for _, need := range []string{"internal/multiplex", "internal/server", "internal/server/usermanager", "internal/client", "internal/common", "internal/ecdh", "cmd/ck-client", "cmd/ck-server"} {
+		if cfg.Ctl {
+			break
+		}
 		if p.pkgByRel[need] == nil {
 			return nil, fmt.Errorf("anchor package %s not loaded", need)
 		}
